@@ -268,6 +268,15 @@ def assemble (g : Cfg) (cp : List Char) : List ParReq → List Nat → Option (L
       | [] => none
       | v :: nums' => (assemble g cp rest nums').map (setHeader hs g.name (render cp g.fmt v) :: ·)
 
+/-- `assemble` for every thread (`none` when the lists do not match) -/
+def assembleAll (g : Cfg) (cp : List Char) : List (List ParReq) → List (List Nat) → Option (List (List Headers))
+  | [], [] => some []
+  | t :: ts, n :: ns =>
+    match assemble g cp t n, assembleAll g cp ts ns with
+    | some o, some os => some (o :: os)
+    | _, _ => none
+  | _, _ => none
+
 /-- concurrent requests of several threads through connections that all share implementation `i`,
 under a schedule of the instructions of `_generate_request_id` -/
 def World.par (g : Cfg) (w : World) (i : Nat) (threads : List (List ParReq))
@@ -284,7 +293,7 @@ def World.par (g : Cfg) (w : World) (i : Nat) (threads : List (List ParReq))
         match runPar g.prog n (need.map fun t => (t.filter id).length) sched with
         | .error e => .error e
         | .ok (nums, n') =>
-          match (threads.zip nums).mapM (fun tn => assemble g im.cp tn.1 tn.2) with
+          match assembleAll g im.cp threads nums with
           | none => .error .assertion
           | some out => .ok ({ w with impls := setImpl w.impls i { im with ctr := some n' } }, out)
 
